@@ -260,6 +260,7 @@ class SimBus(Endpoint, can.BusABC):
 
     def __init__(self, channel, name, modifiable_tasks=True, cancel_on_shutdown=True):
         Endpoint.__init__(self, channel, name)
+        self.rx_stamp = {}
         can.BusABC.__init__(self, channel=name)
         self.channel_info = "simcan:%s" % name
         self.network = None
@@ -365,6 +366,8 @@ class SimBus(Endpoint, can.BusABC):
             return
         self.rx_count += 1
         ctx = self.channel_obj.ctx
+        if not error and not rtr:
+            self.rx_stamp[can_id] = ts      # the receive timestamp the driver attached to the last data frame with this id
         ctx.log("rx", self.name, can_id, data, rtr)
         if self.via_notify:
             if error or rtr:
